@@ -58,8 +58,7 @@ class Judge(object):
         self.tname = None
 
     def set_table(self, name, table):
-        self.sf.set_semantic_constraints(dict(table))
-        self.table = self.sf.get_semantic_constraints()   # the table in force, as the API reports it
+        self.table = tablegen.set_table_hostile(self.sf, table, self.ctx.rng, self.ctx)   # the table in force, as the API reports it
         self.tname = name
         self.ctx.count("tables")
 
